@@ -44,6 +44,7 @@ POOL = {
     # already carries -- with falsy values: the documented "existing keys are kept" makes them no-ops here
     'ctxproc-named': lambda: SimpleContextProcessor('zero', 'empty', 'flag', 'nothing', 'lst', k='processor-k'),
     'ctxproc2-named': lambda: ContextProcessor(defaults={'zero': 7, 'empty': 'filled', 'flag': True, 'nothing': 'x', 'lst': [1], 'n': None}),
+    'ctxproc-lang': lambda: SimpleContextProcessor(k='en'),
     'getparam': lambda: GetParamMiddleware(['unread_q']),
     'postdata': lambda: PostDataMiddleware(['unread_p']),
     'scriptroot': lambda: ScriptRootMiddleware(),
@@ -59,7 +60,7 @@ PATHS = ['/ok', '/rnd', '/empty', '/stream', '/red', '/ctx', '/x404', '/r409', '
          # bodies the application coded itself; a read-only render context
          '/pre/deflate', '/pre/deflate', '/pre/gzip', '/pre/br', '/roctx', '/roctx',
          # a body handed through untouched; responses that carry no Content-Type at all
-         '/passthrough', '/passthrough', '/nocontent', '/nocontent', '/notmodified', '/notype']
+         '/ownlength', '/ownlength', '/rowctx', '/rowctx', '/passthrough', '/passthrough', '/nocontent', '/nocontent', '/notmodified', '/notype']
 # Cookie headers a client may send although this server never set them (index 0 = the jar as it is)
 COOKIES = [None, 'clastic_cookie=garbage', 'clastic_cookie=AAAA?k=InYi', 'clastic_cookie="\xc3\xa9?\xc3\xa9=1"', 'clastic_cookie=a?b',
            'clastic_cookie=aAAAA?k=InYi', 'clastic_cookie=AAAA?\xc3\xa9k=InYi&x=1', 'other=1; clastic_cookie=%%%', 'clastic_cookie=',
@@ -67,6 +68,26 @@ COOKIES = [None, 'clastic_cookie=garbage', 'clastic_cookie=AAAA?k=InYi', 'clasti
 AES = [('gzip', True), ('gzip;q=0', False), ('*', True), ('identity', False), (None, False), ('deflate, gzip;q=0.5', True),
        ('br', False), ('gzip, deflate, br', True), ('*;q=0', False)]
 METHODS = ['GET', 'GET', 'GET', 'HEAD', 'POST', 'DELETE']
+
+
+class RowLike(object):
+    def __init__(self, items):
+        self._items = list(items)
+
+    def keys(self):
+        return [k for k, _ in self._items]
+
+    def __getitem__(self, key):
+        for k, v in self._items:
+            if k == key:
+                return v
+        raise IndexError(key)
+
+    def __iter__(self):
+        return iter(v for _, v in self._items)       # iterates VALUES, like sqlite3.Row
+
+    def __len__(self):
+        return len(self._items)
 
 
 def routes():
@@ -171,13 +192,29 @@ def routes():
         del resp.headers['Content-Type']
         return resp
 
+    def ownlength():
+        # a response type that manages Content-Length itself (werkzeug's documented switch)
+        class OwnLength(Response):
+            automatically_set_content_length = False
+        body = b'own length ' * 900
+        resp = OwnLength(body, mimetype='text/plain')
+        resp.headers['Content-Length'] = str(len(body))
+        return resp
+
+    def rowctx():
+        # a database row as render context: has keys() and item access, is no Mapping and cannot be assigned to
+        return RowLike([('lang', 'en'), ('zero', 0), ('k', 'row')])
+
+    def render_row(context):
+        return Response(repr([(k, context[k]) for k in context.keys()]), mimetype='text/plain')
+
     def size(n):
         # n compressible bytes: sizes sit on powers of two and their neighbours (buffer boundaries)
         return Response((b'0123456789abcdef' * (n // 16 + 1))[:n], mimetype='text/plain')
     return [('/ok', ok), ('/rnd', rndb), ('/empty', empty), ('/small', small), ('/text', text), ('/stream', stream), ('/red', red),
             ('/ctx', ctx, render_basic), ('/x404', x404), ('/r409', r409), ('/r404', r404), ('/nb', nb), ('/nbret', nbret),
             ('/r400nb', r400nb), ('/x503', x503), ('/boom', boom), ('/boomkey', boomkey), GET('/g', ok), POST('/form', form), ('/pre/deflate', pre_deflate), ('/pre/gzip', pre_gzip), ('/pre/br', pre_other),
-            ('/roctx', ro_ctx, render_mapping), ('/passthrough', passthrough), ('/nocontent', nocontent), ('/notmodified', notmodified),
+            ('/roctx', ro_ctx, render_mapping), ('/passthrough', passthrough), ('/ownlength', ownlength), ('/rowctx', rowctx, render_row), ('/nocontent', nocontent), ('/notmodified', notmodified),
             ('/notype', notype), ('/b/', ok), ('/size/<n:int>', size), ('/vary', vary), ('/vary2', vary2)]
 
 
